@@ -184,6 +184,18 @@ def _plane_batch(tier):
                             for nn in (2, 3):
                                 out.append(mk(plane="batch", method=method, opkind=kind, E=em, Edtype="-",
                                               dtype=dtype, spec="spd", n=nn, ncols=nn, bA=bA, bB=bB, bE=bE, bM=bM))
+    # clustered shifts (all within 1e-5 relative of the first one, none equal)
+    for dtype in ["f64", "c128"]:
+        for em in ["E", "EM"]:
+            for pat in BATCH3:
+                for kind in ["dense", "mv"]:
+                    for method in ["exactsolve", "custom_exactsolve", "bicgstab"]:
+                        for ncols in (2, 3):
+                            c = mk(plane="batch", method=method, opkind=kind, E=em,
+                                   Edtype=("complex" if dtype == "c128" else "-"), dtype=dtype, spec="spd", n=3,
+                                   ncols=ncols, **_pat(em, pat))
+                            c["ecluster"] = 1
+                            out.append(c)
     if tier == "quick":
         # exactsolve proper (not through the autograd Function) on the same lattice, dense only
         for em in ["none", "E", "EM"]:
@@ -508,6 +520,12 @@ def build_case(cfg):
                         cfg["kappa"], cfg["vseed"], cfg["B"])
     if em == "M":
         p["E"] = None
+    if cfg.get("ecluster") and p["E"] is not None:
+        # nearly coinciding, but DIFFERENT shifts: column c has the shift of column 0 times (1 + 3e-6 c) + 4e-9 c;
+        # every column is its own system (relative change of the solution ~ 1e-6 >> the tolerance of a direct solve)
+        e0 = p["E"][..., :1]
+        cidx = torch.arange(p["E"].shape[-1], dtype=e0.real.dtype)
+        p["E"] = e0 * (1.0 + 3e-6 * cidx) + 4e-9 * cidx
     mix = cfg.get("mix")
     if mix:
         k = 1 if mix.endswith("rev") else 0
